@@ -224,9 +224,11 @@ PROPS["C17"] = dict(
 PROPS["C20"] = dict(
     module="Panacea.Properties.C20",
     obligations=["Panacea.C20.good_step", "Panacea.C20.no_deadlock", "Panacea.C20.good_preserved",
-                 "Panacea.C20.keystore_threads_good", "Panacea.C20.keystore_never_deadlocks"],
-    streams=[dict(name="kslock", quick=1, thorough=1, thorough_seeds=1), dict(name="conc", quick=2, thorough=20, thorough_seeds=2)],
-    trusted=["hand-written Lean model of Go's writer-preferring sync.RWMutex and of the lock operations of KeyStore.Save/Load/LoadByAddress (Panacea/Model/Keystore.lean); the lock-operation sequences per method are checked against the source by the fact extractor (Generated facts) and the kslock stream runs 6 loaders + 6 savers under a watchdog on the real code",
+                 "Panacea.C20.wb_threads_good", "Panacea.C20.wb_never_deadlocks", "Panacea.C20.source_paths_well_bracketed",
+                 "Panacea.C20.source_methods", "Panacea.C20.keystore_never_deadlocks",
+                 "Panacea.C20.listing_stable_without_fast_index", "Panacea.C20.listing_at_latest_sees_next_height"],
+    streams=[dict(name="kslock", quick=1, thorough=1, thorough_seeds=1), dict(name="conc", quick=5, thorough=40, thorough_seeds=2)],
+    trusted=["hand-written Lean model of Go's writer-preferring sync.RWMutex and of the lock operations of KeyStore.Save/Load/LoadByAddress (Panacea/Model/Keystore.lean); the lock programs are the regenerated table Generated.lockPaths (translator /verif/extract: mutex operations on every control path of every exported KeyStore method, intra-type calls expanded), over which source_paths_well_bracketed is re-proved on every run; the kslock stream runs every error/success path of each method followed by a Save and a Load under a watchdog, then 6 loaders + 6 savers, on the real code",
              "query snapshot isolation is a theorem of the App model only (Properties/C10); the real baseapp behaviour and Go data-race freedom cannot be exhibited by a model (partial)"],
     assumptions=["partial: data races in Go memory and baseapp's query snapshots are outside any executable model here"],
 )
